@@ -118,3 +118,57 @@ fn path_borrow_mut_non_tracing_parent() {
     });
     core::mem::forget(arena);
 }
+
+// ---- bounded whole-arena script (thorough tier, labelled bounded): <= 3 objects, 4 symbolic operations
+static mut SCRIPT_DROPS: [u8; 4] = [0; 4];
+struct Cell3<'gc> { id: u8, next: Lock<Option<Gc<'gc, Cell3<'gc>>>> }
+impl<'gc> Drop for Cell3<'gc> { fn drop(&mut self) { unsafe { SCRIPT_DROPS[self.id as usize] += 1; } } }
+unsafe impl<'gc> Collect<'gc> for Cell3<'gc> {
+    fn trace<T: crate::collect::Trace<'gc>>(&self, cc: &mut T) { cc.trace(&self.next); }
+}
+#[derive(crate::Collect)]
+#[collect(no_drop)]
+struct SRoot<'gc> { a: Lock<Option<Gc<'gc, Cell3<'gc>>>> }
+
+#[kani::proof]
+#[kani::unwind(6)]
+fn script_bounded_c01() {
+    let mut arena = Arena::<Rootable![SRoot<'_>]>::new(|_| SRoot { a: Lock::new(None) });
+    arena.metrics().set_pacing(crate::metrics::Pacing { min_sleep: 0, sleep_factor: 0.0, ..crate::metrics::Pacing::DEFAULT });
+    let mut next_id: u8 = 0;
+    let mut k = 0;
+    while k < 4 {
+        let op: u8 = kani::any();
+        kani::assume(op < 5);
+        match op {
+            0 => if next_id < 3 {
+                let id = next_id; next_id += 1;
+                // allocate and link in front of the chain (root barrier path: mutate_root)
+                arena.mutate_root(|mc, root| {
+                    let n = Gc::new(mc, Cell3 { id, next: Lock::new(root.a.get()) });
+                    crate::barrier::Write::from_mut(&mut root.a).unlock().set(Some(n));
+                });
+            },
+            1 => arena.mutate_root(|_, root| { // unlink head
+                let nx = root.a.get().and_then(|h| h.next.get());
+                crate::barrier::Write::from_mut(&mut root.a).unlock().set(nx);
+            }),
+            2 => { arena.metrics().adjust_debt(0.3); arena.collect_debt(); }
+            3 => { let _ = arena.finish_marking(); }
+            _ => arena.finish_cycle(),
+        }
+        // oracle C01: everything reachable from the root has not been destructed
+        arena.mutate(|_, root| {
+            let mut cur = root.a.get();
+            let mut steps = 0;
+            while let Some(c) = cur {
+                assert!(unsafe { SCRIPT_DROPS[c.id as usize] } == 0);
+                cur = c.next.get();
+                steps += 1;
+                if steps >= 3 { break; }
+            }
+        });
+        k += 1;
+    }
+    core::mem::forget(arena);
+}
